@@ -198,6 +198,10 @@ func c13Stream(c *Ctx, i int64, m, l1 int) {
 			}
 			// Reset and reuse must give the hash of the new data only.
 			x.Reset()
+			if got, want := x.Sum32(), ref.XXH32(nil); got != want {
+				c.Violation("stream/reset-then-sum", fmt.Sprintf("Reset after %d bytes then Sum32 without a write: %08x, reference (empty input) %08x", p, got, want), nil)
+				return
+			}
 			x.Write(data[:l2])
 			if got, want := x.Sum32(), ref.XXH32(data[:l2]); got != want {
 				c.Violation("stream/reset-reuse", fmt.Sprintf("after Reset, %d bytes: %08x, reference %08x", l2, got, want), nil)
